@@ -163,3 +163,76 @@ func scenarios(cfg out.Config, r *rng.R, raceMode bool) []scenario {
 	}
 	return res
 }
+
+// ---------------------------------------------------------------- instance reuse
+
+// consecutive requests differ in exactly what the property speaks of: header names and
+// values, query names and values, params, body (present / other length / invalid / absent)
+var reuseSeq = []reqSpec{
+	{hdr: map[string][]string{"X-A": {"1"}, "X-B": {"2"}, "User-Agent": {"ua1"}}, qry: map[string][]string{"x": {"1"}, "y": {"2"}}, par: map[string]string{"Id": "42"}, body: sp(`{"v":1}`)},
+	{hdr: map[string][]string{"X-C": {"9"}, "X-B": {"3", "4"}}, qry: map[string][]string{"y": {"5"}, "z": {"1"}}, par: map[string]string{"Id": "7"}, body: sp(`{"v":22222,"w":"longer body"}`)},
+	{hdr: map[string][]string{}, qry: map[string][]string{}, par: map[string]string{"Id": "a-b"}},
+	{hdr: map[string][]string{"X-A": {"only"}, "Accept": {"*/*"}}, qry: map[string][]string{"x": {"8", "9"}, "variables": {"client"}}, par: map[string]string{"Id": "42"}, body: sp(`not json`)},
+	{hdr: map[string][]string{"X-A": {"1"}, "X-B": {"2"}, "User-Agent": {"ua1"}}, qry: map[string][]string{"x": {"1"}, "y": {"2"}}, par: map[string]string{"Id": "42"}, body: sp(`{"v":1}`)},
+}
+
+func reuseScenarios(cfg out.Config, r *rng.R, raceMode bool) (seqs, concs []scenario) {
+	hfPartial := beSpec{pattern: "/hfp/{id}", hdrs: []string{"X-A", "X-C"}}
+	qfPartial := beSpec{pattern: "/qfp", qs: []string{"x", "z"}}
+	mk := func(name, m string, cc int, bs ...beSpec) scenario {
+		return scenario{name: name, epMethod: m, cc: cc, bs: bs, seq: reuseSeq}
+	}
+	corpus := []scenario{
+		mk("reuse", "GET", 1, hfPartial, qfPartial, shape("gql-get"), shape("plain")),
+		mk("reuse", "GET", 2, hfPartial, shape("gql-get-qf"), shape("plain")),
+		mk("reuse", "POST", 1, shape("gql-mut"), shape("post"), shape("qf-hf"), hfPartial),
+		mk("reuse", "POST", 2, shape("gql-mut-get"), shape("put"), qfPartial),
+		mk("reuse", "GET", 1, shape("gql-post"), shape("gql-get"), shape("gql-post-none")),
+		mk("reuse", "GET", 3, hfPartial),
+		mk("reuse", "GET", 2, qfPartial),
+		mk("reuse", "POST", 3, shape("gql-mut")),
+		mk("reuse", "GET", 1, shape("qf-hf"), shape("hf"), shape("qf")),
+		mk("reuse", "POST", 1, shape("post"), shape("head"), shape("gql-get-qf")),
+	}
+	seqs = append(seqs, corpus...)
+	nrand := 30
+	if raceMode {
+		nrand = 10
+	}
+	if cfg.Thorough() {
+		nrand *= 6
+	}
+	hdrPool := []string{"X-A", "X-B", "X-C", "User-Agent", "Accept"}
+	qPool := []string{"x", "y", "z", "variables"}
+	for i := 0; i < nrand; i++ {
+		n := 1 + r.Intn(3)
+		sc := scenario{name: "reuse-random", epMethod: []string{"GET", "POST"}[r.Intn(2)], cc: 1 + r.Intn(3)}
+		for k := 0; k < n; k++ {
+			b := beSpec{pattern: fmt.Sprintf("/u%d/{id}", k), method: []string{"", "GET", "POST", "PUT"}[r.Intn(4)]}
+			for j, m := 0, 1+r.Intn(3); j < m; j++ {
+				b.hdrs = append(b.hdrs, r.Pick(hdrPool))
+			}
+			if r.Chance(1, 2) {
+				for j, m := 0, 1+r.Intn(2); j < m; j++ {
+					b.qs = append(b.qs, r.Pick(qPool))
+				}
+			}
+			if r.Chance(1, 3) {
+				b.gql = &gqlSpec{get: r.Bool(), mutation: r.Chance(1, 3), vars: []string{"none", "param", "static"}[r.Intn(3)]}
+			}
+			sc.bs = append(sc.bs, b)
+		}
+		p := r.Perm(len(reuseSeq))
+		for _, j := range p[:4] {
+			sc.seq = append(sc.seq, reuseSeq[j])
+		}
+		seqs = append(seqs, sc)
+	}
+	// concurrent reuse: the corpus endpoints, four distinct requests each
+	for _, c := range corpus {
+		c.name = "reuse-conc"
+		c.seq = reuseSeq[:4]
+		concs = append(concs, c)
+	}
+	return seqs, concs
+}
